@@ -53,6 +53,7 @@ func ZZ_C12_N1_FindClosest() {
 //zzv:bound N1 = real FindClosest: all strictly increasing key lists of length 1..12 (thorough 1..16), keys 0..255 and targets -1000..1000 (thorough additionally keys/targets anywhere in +-2^31, length <= 8; longer lists and wider ranges were tried and run into the 300 s cap): the result is an element, no element is strictly nearer, exact hits are returned, requests beyond either end use that end
 //zzv:bound N2 = real ExtractKeysWithDistinctValues + SortedKeys on maps with 1..5 (thorough 1..6) entries, keys any distinct 0..255 inserted in any order, outputs any 0..255 (constant, single-entry and non-monotonic maps included): the result is exactly the first key of each run of equal outputs in key order, ascending
 //zzv:outside empty maps (outside the property); key lists longer than the bound; outputs equal to -1 (the implementation's sentinel, not a PWM value)
+//zzv:opts inttimeout_quick=120
 //zzv:stub sort.Slice inside util.sortSlice is a sorting network over the concrete-length slice
 
 func ZZ_C12_N2_DistinctKeys() {
